@@ -77,8 +77,8 @@ PROPS["C05"] = dict(
 )
 PROPS["C08"] = dict(
     title="a request that fails leaves no trace",
-    quick=[G("M_FAIL"), G("M_FAIL2"), G("M_IDX", cfg="M_IDX_ill"), H(30)],
-    thorough=[G("M_FAIL", cfg="M_FAIL_t"), G("M_FAIL2"), G("M_IDX", cfg="M_IDX_ill"), H(600, 60)],
+    quick=[G("M_FAIL"), G("M_FAIL2"), G("M_IDX", cfg="M_IDX_ill"), T("M_UPSERT"), H(30)],
+    thorough=[G("M_FAIL", cfg="M_FAIL_t"), G("M_FAIL2"), G("M_IDX", cfg="M_IDX_ill"), T("M_UPSERT"), H(600, 60)],
     own=[parts("Base", "Index", "IdxCount", "IdxDesc", "Desc", "Catalog")],
     when=lambda f: f["oc"] != "ok",      # C08 speaks about calls that fail; a wrongly accepted request belongs to C07/C13/C16
     level="fault_enumeration",
@@ -101,8 +101,8 @@ PROPS["C02"] = dict(
 )
 PROPS["C04"] = dict(
     title="paginating with any Limit equals one unpaginated read",
-    quick=[G("M_READ", cfg="M_WALK"), H(30)],
-    thorough=[G("M_READ", cfg="M_WALK_t"), H(600, 60)],
+    quick=[G("M_READ", cfg="M_WALK"), T("M_DOTQ"), H(30)],
+    thorough=[G("M_READ", cfg="M_WALK_t"), T("M_DOTQ"), H(600, 60)],
     own=[parts("Outcome", "Data", "NoCrash")],
     when=lambda f: f["op"] == "Walk",
     design_ref="DESIGN.md 6 C04",
